@@ -164,7 +164,14 @@ func runC12(c *core.Ctx) *core.Outcome {
 	}
 	for i := 0; i < nreq; i++ {
 		if legacy && i > 0 {
-			for p, b := range stateFiles(disk) {
+			files := stateFiles(disk)
+			var names []string
+			for p := range files {
+				names = append(names, p)
+			}
+			sort.Strings(names)
+			for _, p := range names {
+				b := files[p]
 				base := p[strings.LastIndex(p, "/")+1:]
 				if len(base) < 2 || strings.HasPrefix(base, ".") {
 					continue
